@@ -29,7 +29,7 @@ MANIFEST = {
             "artefact is (A) an executable reference semantics of XPath 1.0 on YANG data trees written from the W3C "
             "recommendation (XPathSem.eval with spec_flags: 13 axes, node tests, predicates with position()/last(), filters, "
             "unions, operators, core function library, current()), carrying one switch per construct in which xpath.c still "
-            "departs from the recommendation (impl_flags = as coded, 11 switches), proved to have the set-theoretic properties "
+            "departs from the recommendation (impl_flags = as coded, 10 switches), proved to have the set-theoretic properties "
             "of the property text FOR EVERY SETTING OF THE SWITCHES, in particular as coded: C08_eval_nodeset_sorted_nodup / "
             "C08_eval_nodeset_nodup / C08_eval_nodeset_nodup_as_coded (every node-set value of every expression is strictly "
             "increasing in document order, hence duplicate free), C08_union_comm, C08_predicate_true_identity, "
@@ -38,18 +38,23 @@ MANIFEST = {
             "conversion kernels modelled as coded (cast_string_to_number/strtold, lyxp_set_cast number->string, floorl/ceill, "
             "string-length/substring on bytes) with impl = spec theorems (C08_floor_impl_eq_spec for all numbers, "
             "C08_s2n_impl_eq_spec_plain, C08_n2s_impl_eq_spec_int, C08_string_length_ascii on the domains where the code follows "
-            "the recommendation) and refutation witnesses elsewhere. Tie to xpath.c: differential testing only - "
+            "the recommendation) and refutation witnesses elsewhere; "
+            "the two conversion kernels of the code are tied to the recommendation kernel at 64 bits, an answer equal to the "
+            "as-coded kernel is the listed deviation. Tie to xpath.c: differential testing only - "
             "lyxp_eval()/lyd_eval_xpath4() on generated expressions x trees x context nodes must answer the reference result, or "
             "the as-coded result, in which case the needed switches name a LISTED deviation (known_findings.d/xpath.json: 12 "
-            "known, each with a replay on the real library; 20 fixed in /repo 61e2388..f6e5fb8, whose witnesses stay as "
-            "regression cases); any other answer, crash or failed assertion is a violation. Oracles on the implementation "
+            "known, each with a replay on the real library; a switch whose replay answers the reference result is put back "
+            "for the run, so a repaired deviation needs no model change; 22 fixed in /repo 61e2388..7b6de94, whose witnesses "
+            "stay as regression cases); any other answer, crash or failed assertion is a violation. Oracles on the implementation "
             "itself: key predicates answered by the hash lookup select the same nodes as forced generic evaluation, on lists "
             "without and with the children hash table; no sanitizer report on generated expressions.",
     "note": "Not modelled: deref(), re-match(), derived-from(-or-self)(), enum-value(), bit-is-set(), lang(), id(), "
             "namespace-uri(), variables, metadata (attribute axis is empty in the model), opaque nodes, when/must integration, "
             "schema (atom) evaluation. Unprefixed names follow the JSON rule (module of the parent node). The key lookup of "
-            "the code is not modelled any more (it agrees with generic evaluation since 434e77e/a599f2f) except for one listed "
-            "residual case that is attributed by the shape of the expression.",
+            "the code ([key=value] answered by one hash lookup) is not modelled: it must agree with generic evaluation; its two "
+            "listed residual defects (value depends on the list instance; empty node-set value) are attributed by the shape of "
+            "the expression, only while their replays still reproduce. strtold() ERANGE is modelled only away from the limits "
+            "of the long double exponent range.",
     "technique": "Coq proof over an executable specification + as-coded kernels, differential correspondence (extracted OCaml vs C) "
                  "with deviation attribution, implementation-level oracles",
 }
